@@ -44,11 +44,13 @@ def run(c):
     def models():
         # four small state spaces: run side by side (distinct cfg files: the derived configs must not collide)
         c.parallel([
-            lambda: c.tlc_model("PmisModel", constants={"NN": 4, "MinNP": 1, "MaxNP": 3, "Sym": "TRUE"}, workers=4),
+            # action coverage (vacuity control) is collected on a tiny space only: -coverage slows TLC down ~10x here
+            lambda: c.tlc_model("PmisModel", cfg="PmisModelCov.cfg", constants={"NN": 3, "MinNP": 1, "MaxNP": 3, "Sym": "TRUE"}, workers=2),
+            lambda: c.tlc_model("PmisModel", constants={"NN": 4, "MinNP": 1, "MaxNP": 3, "Sym": "TRUE"}, workers=4, coverage=False),
             lambda: c.tlc_model("PmisModel", cfg="PmisModel5.cfg", constants={"NN": 5, "MinNP": 1 if th else 2, "MaxNP": 3 if th else 2, "Sym": "TRUE"},
-                                workers=6 if not th else 8, timeout=2400, coverage=False),   # (interim coverage blocks of long runs read as "never taken")
+                                workers=6 if not th else 8, timeout=2400, coverage=False),
             lambda: c.tlc_model("PmisModel", cfg="PmisModelDi.cfg", constants={"NN": 4 if th else 3, "MinNP": 1, "MaxNP": 3, "Sym": "FALSE"},
-                                workers=4 if not th else 8, timeout=2400),
+                                workers=4 if not th else 8, timeout=2400, coverage=False),
             lambda: c.tlc_model("Consolidation", workers=2)]
             + ([lambda: c.tlc_model("PmisModel", cfg="PmisModel6.cfg", constants={"NN": 6, "MinNP": 2, "MaxNP": 2, "Sym": "TRUE"},
                                     workers=8, timeout=3000, coverage=False)] if th else []))
